@@ -170,7 +170,9 @@ def is_inert(kind, v):
 
 
 def bounds_equal(a, b):
-    return len(a) == len(b) and all(values_equal(float(x), float(y)) for x, y in zip(a, b))
+    def f(v):
+        return float("nan") if v is None else float(v)      # null and NaN both mean undefined
+    return len(a) == len(b) and all(values_equal(f(x), f(y)) for x, y in zip(a, b))
 
 
 # ------------------------------------------------------------------- refgeom
